@@ -51,20 +51,20 @@ type c12watcher struct {
 }
 
 type c12store struct {
-	c        *sim.Ctx
-	data     map[string][]byte
-	version  int // bumped by every effective mutation
+	c       *sim.Ctx
+	data    map[string][]byte
+	version int // bumped by every effective mutation
 	// prefixes that two records claimed at the same time at some point of the run
 	conflicted map[string]bool
-	watchers []*c12watcher
-	evseq    int
-	quiet    bool  // fault-free phase: no errors, crashes or watch faults
-	noEcho   bool  // do not notify the writer's own watcher
-	errPm    int   // tape-chosen error rate per call (per mille)
-	crashPm  int   // tape-chosen crash rate per call (per mille)
-	watchPm  int   // tape-chosen watch fault rate per notification (per mille)
-	crashes  int
-	maxCrash int
+	watchers   []*c12watcher
+	evseq      int
+	quiet      bool // fault-free phase: no errors, crashes or watch faults
+	noEcho     bool // do not notify the writer's own watcher
+	errPm      int  // tape-chosen error rate per call (per mille)
+	crashPm    int  // tape-chosen crash rate per call (per mille)
+	watchPm    int  // tape-chosen watch fault rate per notification (per mille)
+	crashes    int
+	maxCrash   int
 	// oracle hooks
 	onDeliver func(w *c12watcher, ev *c12event)
 	preGet    func(w *c12watcher, ev *c12event)
